@@ -25,7 +25,6 @@ import (
 	"regexp"
 	"runtime"
 	"runtime/debug"
-	"runtime/metrics"
 	"sort"
 	"strconv"
 	"strings"
@@ -535,7 +534,7 @@ func c10PredictDispatch(item *models.Item) (reach []string) {
 		return []string{"skip:depth"}
 	case !dc && item.GetDepthWithoutRedirections() == 1 && strings.Contains(u.GetMIMEType().String(), "html"):
 		return []string{"skip:html-asset"}
-	case config.Get().DisableAssetsCapture && !dc:
+	case config.Get().DisableAssetsCapture && !dc && u.GetHops() >= config.Get().MaxHops:
 		return []string{"skip:no-assets"}
 	}
 	if st != 200 {
@@ -784,15 +783,22 @@ func c10Guarded(c c10Case) (r c10Result) {
 	return r
 }
 
-// c10HeapLimit: live heap a single case (input <= 256 KiB) may reach before it is declared a memory blow-up (the
-// crawler would be killed by the kernel long before every worker does this at once).
+// c10HeapLimit: resident memory a single case (input <= 128 KiB) may drive the process to before it is declared a
+// memory blow-up (a crawler host runs many workers; the kernel would kill it long before all of them do this).
+// Resident pages, not allocated bytes: a decoder that reserves a huge buffer and never touches it costs nothing.
 const c10HeapLimit = 2 << 30
 
-var c10HeapSample = []metrics.Sample{{Name: "/memory/classes/heap/objects:bytes"}}
-
 func c10HeapBytes() uint64 {
-	metrics.Read(c10HeapSample)
-	return c10HeapSample[0].Value.Uint64()
+	b, err := os.ReadFile("/proc/self/statm")
+	if err != nil {
+		return 0
+	}
+	f := strings.Fields(string(b))
+	if len(f) < 2 {
+		return 0
+	}
+	pages, _ := strconv.ParseUint(f[1], 10, 64)
+	return pages * uint64(os.Getpagesize())
 }
 
 // c10Exec runs one case under the watchdog (deadline + heap ceiling). over = "" | "time" | "memory".
@@ -946,7 +952,7 @@ func c10HandleMemory(facet string, c c10Case) {
 	dump := make([]byte, 1<<20)
 	dump = dump[:runtime.Stack(dump, true)]
 	where := c10StuckFrames(string(dump))
-	msg := fmt.Sprintf("memory blow-up (key C10-oom-%s): a %d-byte input made the process hold more than %d MiB of live heap; allocating in: %s; target=%s url=%q ct=%q status=%d body=%s",
+	msg := fmt.Sprintf("memory blow-up (key C10-oom-%s): a %d-byte input drove the process above %d MiB of resident memory; allocating in: %s; target=%s url=%q ct=%q status=%d body=%s",
 		c10TestName(where), len(c.Body), c10HeapLimit>>20, where, c.Target, c.URL, c.CT, c.Status, c10Preview(c.Body))
 	veriflib.WriteFailure("C10", facet, c10Slim(c), map[string]any{"goroutines": string(dump)}, msg)
 	c10JournalEnd(facet)
@@ -1075,7 +1081,8 @@ func c10JournalBegin(facet string, c c10Case) {
 	defer c10JMu.Unlock()
 	if c10JFile == nil {
 		os.MkdirAll(dir, 0o755)
-		f, err := os.Create(filepath.Join(dir, "journal-c10-"+os.Getenv("VERIF_SHARD")+".json"))
+		// (the driver's convention: fail/journal-<shard>.json is the culprit when the process dies without a verdict)
+		f, err := os.Create(filepath.Join(dir, "journal-"+os.Getenv("VERIF_SHARD")+".json"))
 		if err != nil {
 			return
 		}
